@@ -197,6 +197,29 @@ func deepCopy(v any) any {
 	}
 }
 
+// tooDeep reports bag data nested deeper than any generated or parsed document can be: contents that contain
+// themselves (a container stored into itself through aliasing) would make every traversal run forever.
+func tooDeep(v any, depth int) bool {
+	if depth > 64 {
+		return true
+	}
+	switch tv := v.(type) {
+	case []any:
+		for _, e := range tv {
+			if tooDeep(e, depth+1) {
+				return true
+			}
+		}
+	case map[string]any:
+		for _, e := range tv {
+			if tooDeep(e, depth+1) {
+				return true
+			}
+		}
+	}
+	return false
+}
+
 // ---- generators -----------------------------------------------------------------------------
 
 type genOpts struct {
